@@ -303,6 +303,34 @@ func faultedStreams(base []byte, rng *splitmix, maxExhaustive int, samples int, 
 			}
 		}
 	}
+	// degenerate but well-defined inputs: whatever the loader makes of them, it is a runner or an error
+	if samples > 0 {
+		nl := "\n"
+		var b []byte
+		kind := ""
+		switch rng.intn(6) {
+		case 0:
+			kind, b = "empty_body_node", append(append([]byte{}, base...), []byte(nl+"title: Zz"+nl+"---"+nl+"===")...)
+		case 1:
+			kind, b = "duplicate_node", append(append(append([]byte{}, base...), []byte(nl)...), base...)
+		case 2:
+			kind, b = "garbage_after_last_node", append(append([]byte{}, base...), []byte(nl+"garbage here"+nl)...)
+		case 3:
+			kind, b = "only_file_tags", []byte("#tag #other"+nl)
+		case 4:
+			kind, b = "header_only", []byte("title: Zz"+nl)
+		case 5:
+			kind, b = "untitled_node", []byte("tags: x"+nl+"---"+nl+"hi"+nl+"==="+nl)
+		}
+		if !emit(streamCase{Kind: kind, Readers: oneReader(b), Seed: "a1"}) {
+			return
+		}
+		if rng.chance(20) {
+			if !emit(streamCase{Kind: "zero_readers", Readers: []ReaderSpec{}, Seed: "a1"}) {
+				return
+			}
+		}
+	}
 	emit(streamCase{Kind: "empty", Readers: oneReader(nil), Seed: "a1"})
 	return exhaustive
 }
